@@ -389,11 +389,12 @@ def make_driver(n_quick: int, n_thorough: int):
         else:
             combos = [(s, c, ts, cc, p, f) for s in slots for c in calls for ts in (1, 2) for cc in range(16)
                       for p in sorted(ref.IPSC_PACKET_TYPES) for f in sorted(ref.IPSC_FRAME_TYPES)]
-        chunks = [(i, combos[i::64]) for i in range(64)]
+        rounds = ctx.pick(1, 4)  # thorough: the whole product four times, each round with freshly drawn remaining fields / payloads
+        chunks = [(i, r, combos[i::64]) for r in range(rounds) for i in range(64)]
 
         def work(chunk, t: Tally):
-            i, part = chunk
-            rng = ctx.rng("cross_product", i)
+            i, r, part = chunk
+            rng = ctx.rng("cross_product", i, *([r] if r else []))
             seen = set()
             for s, c, ts, cc, p, f in part:
                 kind = payload_kind(s, c)
@@ -450,6 +451,7 @@ def make_driver(n_quick: int, n_thorough: int):
         ctx.shards(bwork, bchunks)
         ctx.tally.extra["boundary_cases"] = len(bcombos)
         ctx.tally.extra["cross_product_combinations"] = len(combos)
+        ctx.tally.extra["cross_product_rounds"] = rounds
         ctx.tally.extra["reference_vectors_reproduced"] = _REF_VECTORS
         ctx.tally.notes.append(
             "cross product of the enumerated header fields is complete (slot type x call type x timeslot x colour code"
@@ -460,8 +462,8 @@ def make_driver(n_quick: int, n_thorough: int):
 
 
 SUBCHECKS = [
-    SubCheck("decode", oracle_decode, make_driver(7200, 1000000), "raw-bytes and generic-parser decoders: values equal the encoded ones and both paths agree"),
-    SubCheck("reencode_raw", oracle_reencode_raw, make_driver(3200, 500000), "as_ipsc_bytes of the frame decoded from raw bytes reproduces the 72 octets"),
-    SubCheck("reencode_generic", oracle_reencode_generic, make_driver(3200, 500000), "as_ipsc_bytes of the frame decoded through the generic parser reproduces the 72 octets"),
+    SubCheck("decode", oracle_decode, make_driver(14400, 600000), "raw-bytes and generic-parser decoders: values equal the encoded ones and both paths agree"),
+    SubCheck("reencode_raw", oracle_reencode_raw, make_driver(6400, 300000), "as_ipsc_bytes of the frame decoded from raw bytes reproduces the 72 octets"),
+    SubCheck("reencode_generic", oracle_reencode_generic, make_driver(6400, 300000), "as_ipsc_bytes of the frame decoded through the generic parser reproduces the 72 octets"),
 ]
 PREDICATES = {}
